@@ -35,7 +35,8 @@ from pyty import Reject  # noqa: E402
 from lsprotocol import _hooks, converters, validators  # noqa: E402
 from lsprotocol import types as T  # noqa: E402
 
-conv = converters.get_converter()
+import conv_cfg  # noqa: E402
+conv = conv_cfg.make_converter()      # VERIF_CONV_CFG=after-foreign: the tables as seen after a customised user converter was used (must be the same)
 
 
 from pyty import ty  # noqa: E402,F401
@@ -708,7 +709,18 @@ def main(out_v, out_json):
     out.append("Definition method_constants : list (string * string) := [%s]." % "; ".join("(%s, %s)" % (q(k), q(v)) for k, v in consts))
     reg = sorted(k for k in T.ALL_TYPES_MAP if k != "__builtins__")
     out.append("Definition registry_names : list string := [%s]." % "; ".join(q(k) for k in reg))
-    defined = sorted(k for k, v in vars(T).items() if isinstance(v, type) and v.__module__ == T.__name__)
+    # "every protocol type defined by the package", read from the MODULE NAMESPACE (independently of the registry, and after the first
+    # converter was created above): classes and enums defined in the module, and the module-level typing aliases (Union[...] /
+    # List[...] / ForwardRef objects) other than re-exports of typing itself and the ALL-CAPS message-group constants
+    import typing as _typing
+
+    def _is_alias_obj(k, v):
+        if isinstance(v, type) or k.startswith("__") or k.isupper():
+            return False
+        if getattr(_typing, k, None) is v:
+            return False
+        return _typing.get_origin(v) is not None or isinstance(v, _typing.ForwardRef)
+    defined = sorted(k for k, v in vars(T).items() if (isinstance(v, type) and v.__module__ == T.__name__) or _is_alias_obj(k, v))
     out.append("Definition defined_types : list string := [%s]." % "; ".join(q(k) for k in defined))
     out.append("Definition lsp_version : string := %s." % q(str(getattr(T, "__lsp_version__", ""))))
     stats["catalogue_rows"] = len(crow)
